@@ -148,12 +148,33 @@ Theorem html_context_sound : forall tpls fuel o,
   forall ch, In ch o -> ch <> 60 /\ ch <> 62 /\ ch <> 34 /\ ch <> 39.
 Proof. intros tpls fuel o Ht H. apply clean_spec. eapply html_context_sound_proof; eauto. Qed.
 
+
+(* the ERROR outcome.  The mode is a parameter of the interpreter and no part of any state, so a call that
+   fails cannot leave a mode behind - by construction; stated for the case the engine can get wrong: a macro
+   that fails (inside whatever autoescape block of its own) and whose error the host swallows (attempt) prints
+   the fallback, and the statements after it run under the mode m they stand in *)
+Theorem attempt_failure_keeps_mode : forall tpls fuel initial m caller li env nm body c rest,
+  assoc nm (e_macros env) = Some body ->
+  mexec_list_with (fun mm e st => mexec tpls fuel m mm None None e st) m empty_env body = Err c ->
+  mexec_list_with (fun mm e st => mexec tpls (S fuel) initial mm caller li e st) m env (MAttempt nm :: rest) =
+  bind (mexec_list_with (fun mm e st => mexec tpls (S fuel) initial mm caller li e st) m env rest)
+       (fun '(env2, o2, sg2) => Ok (env2, render_str m false fallback ++ o2, sg2)).
+Proof. exact attempt_failure_keeps_mode_proof. Qed.
+
+(* likewise State::call_macro / State::render_block after a finished render: [run_query] is a function of the
+   templates and the query alone - there is no argument through which an earlier (failed) call could matter *)
+
 (* the two shapes of the round-5 seeded changes, in the model: json > true is html; the print after a loop
    whose body left an `autoescape false` block by continue is html *)
 Example modes_examples :
   run_modes [(MHtml, [MAuto AEJson [MAuto AETrue [MPrint 9]]])] 10 = Ok (marker 9 MHtml) /\
   run_modes [(MHtml, [MLoop 2 [MAuto AEFalse [MContinueAt 1; MPrint 1]]; MPrint 24])] 10 = Ok (marker 1 MNone ++ marker 24 MHtml) /\
-  run_modes [(MJson, [MAuto AETrue [MPrint 3]; MInclude 1]); (MNone, [MAuto AETrue [MPrint 4]])] 10 = Ok (marker 3 MJson ++ marker 4 MHtml).
+  run_modes [(MJson, [MAuto AETrue [MPrint 3]; MInclude 1]); (MNone, [MAuto AETrue [MPrint 4]])] 10 = Ok (marker 3 MJson ++ marker 4 MHtml) /\
+  (* round 6: a macro failing inside its own autoescape false block, swallowed by the host; then a call on the State *)
+  run_modes [(MHtml, [MMacro 1 [MAuto AEFalse [MFail]]; MMacro 2 [MPrint 5]; MAttempt 1; MPrint 10])] 10
+    = Ok (render_str MHtml false fallback ++ marker 10 MHtml) /\
+  run_query [(MHtml, [MMacro 1 [MAuto AEFalse [MFail]]; MMacro 2 [MPrint 5]; MAttempt 1])] 10 (QMacro 2) = Ok (marker 5 MHtml) /\
+  run_query [(MHtml, [MMacro 1 [MAuto AEFalse [MFail]]])] 10 (QMacro 1) = Err E_InvalidOperation.
 Proof. vm_compute. repeat split. Qed.
 
 (* non-vacuity: x = "<b>" flows through a macro, a set-block, upper and a loop *)
@@ -240,3 +261,4 @@ Print Assumptions autoescape_true_is_initial_format.
 Print Assumptions autoescape_block_ignores_current_mode.
 Print Assumptions mode_after_equals_mode_before.
 Print Assumptions html_context_sound.
+Print Assumptions attempt_failure_keeps_mode.
